@@ -35,6 +35,18 @@ func fieldSources(v ssa.Value, owner *types.Named, depth int, out map[string]boo
 	}
 	switch x := core.Canon(v).(type) {
 	case *ssa.Call:
+		// an accessor of the owner: what it returns
+		if t := x.Call.StaticCallee(); t != nil && t.Blocks != nil && t.Signature.Recv() != nil && core.NamedOf(t.Signature.Recv().Type()) == owner {
+			n0 := len(out)
+			core.EachInstr(t, func(in ssa.Instruction) {
+				if ret, ok := in.(*ssa.Return); ok && len(ret.Results) == 1 && ret.Block() != t.Recover {
+					fieldSources(core.ResultOf(ret, 0), owner, depth+1, out)
+				}
+			})
+			if len(out) > n0 {
+				return
+			}
+		}
 		for _, a := range x.Call.Args {
 			fieldSources(a, owner, depth+1, out)
 		}
@@ -204,8 +216,17 @@ func checkC16(p *core.Program, r *core.Report) {
 	}
 	mandatory := map[string]bool{}
 	lookups := map[string][]*ssa.Lookup{}
-	core.EachInstr(proc, func(in ssa.Instruction) {
-		switch x := in.(type) {
+	// the reader's checks may sit in a validation helper of the package: its parameters are bound to the call
+	mdnsLocalFn := func(f *ssa.Function) bool { return p.PkgShort(f) == "mdns" && f.Blocks != nil }
+	for _, cs := range core.ExpandSites(proc, mdnsLocalFn, 1, func(in ssa.Instruction) bool {
+		switch in.(type) {
+		case *ssa.Store, *ssa.Lookup:
+			return true
+		}
+		return false
+	}) {
+		undo := cs.Bind()
+		switch x := cs.In.(type) {
 		case *ssa.Store:
 			// mandatory list: constants stored into a local string array that is ranged over
 			if ia, ok := x.Addr.(*ssa.IndexAddr); ok {
@@ -226,7 +247,8 @@ func checkC16(p *core.Program, r *core.Report) {
 				}
 			}
 		}
-	})
+		undo()
+	}
 	// destination fields
 	dst := map[string]map[string]bool{} // key -> entry fields
 	core.EachInstr(proc, func(in ssa.Instruction) {
@@ -435,6 +457,12 @@ func checkC16(p *core.Program, r *core.Report) {
 	r.Floor(R1, 18)
 
 	// ---- R5: a changed auto-accept flag is re-announced
+	// R6: after an avahi reconnect the record on the network is built from the current request (shared with C19.R1)
+	const R6 = "C16.R6 reannounce-carries-current-record"
+	r.Rule(R6, "the re-announce after a daemon reconnect passes the TXT list loaded from the stored request under the provider mutex after the restart - a list captured before the wait would put a superseded auto-accept flag on the network (rule shared with C19.R1)")
+	c19(p, r, R6)
+	r.Floor(R6, 1)
+
 	const R5 = "C16.R5 flag-change-reannounced"
 	r.Rule(R5, "the announce routine reaches the provider's Announce on every path (unless no provider); SetAutoAccept re-announces whenever the service is announced")
 	providerNil := func(b *ssa.BasicBlock, idx int) bool {
@@ -481,9 +509,16 @@ func checkC16(p *core.Program, r *core.Report) {
 			return isGetter
 		}
 		var st ssa.Instruction
+		storesFlag := core.NewMust(p, 2, func(in ssa.Instruction) bool {
+			f, _, _ := core.StoredField(in)
+			return f != nil && f.Name() == "autoaccept"
+		})
 		core.EachInstr(saa, func(in ssa.Instruction) {
-			if f, _, _ := core.StoredField(in); f != nil && f.Name() == "autoaccept" {
-				st = in
+			switch in.(type) {
+			case *ssa.Store, *ssa.Call:
+				if storesFlag.Instr(in) {
+					st = in
+				}
 			}
 		})
 		callsAnn := func(in ssa.Instruction) bool {
@@ -734,18 +769,27 @@ func checkC16(p *core.Program, r *core.Report) {
 		case *ssa.BinOp:
 			collect(x.X, d+1)
 			collect(x.Y, d+1)
+			return
 		case *ssa.Call:
 			if core.CalleeName(&x.Call) == "fmt.Sprintf" {
-				collect(x.Call.Args[0], d+1)
+				if f, ok := strConst(x.Call.Args[0]); ok {
+					for _, verb := range []string{"%s", "%v", "%d"} {
+						f = strings.ReplaceAll(f, verb, "\x00")
+					}
+					pieces = append(pieces, f)
+					return
+				}
 			}
 			if core.CalleeName(&x.Call) == "strings.Join" {
 				collect(x.Call.Args[1], d+1)
+				return
 			}
 		case *ssa.Phi:
-			for _, e := range x.Edges {
-				collect(e, d+1)
-			}
+			// alternatives of one position (e.g. the optional fields built up step by step): one placeholder
+			pieces = append(pieces, "\x00")
+			return
 		}
+		pieces = append(pieces, "\x00") // a computed value
 	}
 	var rets []*ssa.Return
 	core.EachInstr(qr, func(in ssa.Instruction) {
@@ -754,13 +798,12 @@ func checkC16(p *core.Program, r *core.Report) {
 			collect(core.ResultOf(ret, 0), 0)
 		}
 	})
-	frame := strings.Join(pieces, "|")
-	okFrame := len(rets) > 0
-	for _, need := range []string{"SHIP;SKI:", ";ID:", "ENDSHIP;"} {
-		if !strings.Contains(frame, need) {
-			okFrame = false
-		}
+	frame := strings.Join(pieces, "")
+	for strings.Contains(frame, "\x00\x00") {
+		frame = strings.ReplaceAll(frame, "\x00\x00", "\x00")
 	}
+	okFrame := len(rets) > 0 && strings.HasPrefix(frame, "SHIP;SKI:\x00;ID:\x00;") && strings.HasSuffix(frame, "ENDSHIP;")
+	frame = strings.ReplaceAll(frame, "\x00", "<v>")
 	if okFrame {
 		r.OK(R4, "QR frame literal", p.Pos(qr.Pos()), "SHIP;SKI:..;ID:..;..ENDSHIP; ("+frame+")")
 	} else {
@@ -849,7 +892,6 @@ func eachInstrWithCallees(p *core.Program, fn *ssa.Function, pkg string, depth i
 	}
 	visit(fn, depth)
 }
-
 
 // runeStartEstablished: when the helper establishes its cut position with utf8.RuneStart(s[cut]), every
 // decisive branch edge leading into the slice must either have seen RuneStart(s[cut]) == true for the
